@@ -91,6 +91,9 @@ def compare_fem_aniso(drv, v, t, lump, aniso, aniso_smooth, reuse=False):
                 Solver(m, lump=lump, aniso=aniso, aniso_smooth=aniso_smooth)
                 m.smooth_(1)
                 v = np.array(m.v, dtype=np.float64)
+                nn = np.linalg.norm(tri_geom(v, np.asarray(t, dtype=np.int64))[3], axis=1)
+                if nn.min() < 1e-9 * nn.max():
+                    return None          # smoothing made a triangle (numerically) degenerate: outside the quantifier
             with capture.capture() as calls:
                 s = Solver(m, lump=lump, aniso=aniso, aniso_smooth=aniso_smooth)
             cur_now = m.curvature_tria(smoothit=aniso_smooth)
@@ -133,9 +136,9 @@ def aniso_meshes(seed, n):
         v = v @ gen.random_rotation(rng).T
         aniso = float(rng.uniform(0.5, 6.0)) if k % 2 else (float(rng.uniform(0.5, 6.0)), float(rng.uniform(0.0, 6.0)))
         out.append(dict(v=np.asarray(v, float), t=np.asarray(t, np.int64), aniso=aniso, smooth=int(rng.integers(0, 4)), name=["ellipsoid", "torus", "cylinder"][kind]))
-    for h in (1e-6, 10.0 ** rng.uniform(-7.3, -5)):          # flat (sliver) triangles: one vertex almost on the opposite edge
+    for h in (1e-6, 1e-7, 1e-8, 10.0 ** rng.uniform(-8, -5)):          # flat (sliver) triangles: one vertex almost on the opposite edge
         v, t = gen.sliver(rng, h)
-        out.append(dict(v=v, t=t, aniso=0.0 if h == 1e-6 else (0.0, 3.0), smooth=int(rng.integers(0, 3)), name="sliver"))
+        out.append(dict(v=v, t=t, aniso=0.0 if h in (1e-6, 1e-8) else (0.0, 3.0), smooth=int(rng.integers(0, 3)), name="sliver"))
     return out
 
 
